@@ -168,7 +168,17 @@ def build(ctx, cfg):
         for t in range(N):
             g.E[s][t] = p.adj0[s][t] if s != t else False
         d = {TK: SInt(p.t0[s]), TID: SInt(p.tid0[s]), LID: SInt(p.lid0[s])}
-        if multi_pos:
+        if cfg.get("sym_pos"):
+            # symbolic coordinates (round-trip runs follow the values through export and import)
+            from sx.rt import SReal
+
+            p.pos0 = getattr(p, "pos0", {})
+            p.pos0[s] = [z3.Real(f"pos{ids[s]}_{a}") for a in range(len(shape) - 1)]
+            if multi_pos:
+                d["y"], d["x"] = SReal(p.pos0[s][0]), SReal(p.pos0[s][1])
+            else:
+                d[POS] = [SReal(e) for e in p.pos0[s]]
+        elif multi_pos:
             d["y"], d["x"] = float(s), float(2 * s)
         elif len(shape) == 4:
             d[POS] = [float(s), float(2 * s), float(3 * s)]  # 3D+t
@@ -184,6 +194,8 @@ def build(ctx, cfg):
     n_frames = shape[0] if with_seg else max(shape[0], N)
     pre["times"] = And([And(0 <= p.t0[i], p.t0[i] < n_frames) for i in range(N)])
     pre["tids"] = And([And(1 <= p.tid0[i], p.tid0[i] <= N + 1) for i in range(N)])
+    if cfg.get("bound_lids"):
+        pre["lids"] = And([And(1 <= p.lid0[i], p.lid0[i] <= N + 1) for i in range(N)])
     # the ids are those of a valid solution (Inv items 2 and 3, local form): the real constructor keeps valid ids
     # and recomputes invalid ones, so only valid models replay faithfully
     pre["tracklets"] = I.partition_local(sh, p.tid0, lambda a, b: sh.outdeg[a] == 1)
